@@ -327,7 +327,8 @@ def unpivot_clauses(ctx):
     # package phase: partition of the schema fields into unpivoted / kept, in specification order
     func = ctx.N(step0)
     import copy as _copy
-    fnode = _FilterCanon().visit(_copy.deepcopy(func.node))
+    from sa.astcopy import clone as _clone
+    fnode = _FilterCanon().visit(_clone(func.node))
     ast.fix_missing_locations(fnode)
     spec_loops = [l for l in ast.walk(fnode) if isinstance(l, ast.For) and pseudo(l.iter) == 'unpivot_fields']
     run.check(len(spec_loops) == 1, 'UNP', func.where, func.qualname, 'for u_field in unpivot_fields',
